@@ -61,6 +61,7 @@ Prog *prog_get(const char *src);
 Prog *prog_lookup(const char *key);
 uint64_t fnv64(const char *s);
 
+const char *asan_site(Buf *asan, char *kind, size_t ksz, char *site, size_t ssz);
 void default_knobs(void);
 void knobs_print(Buf *b);
 bool knobs_parse_line(const char *line);
